@@ -28,7 +28,9 @@ def main():
         tmp = tempfile.mkdtemp(prefix="mzsa-mut-")
         try:
             dst = os.path.join(tmp, "repo")
-            subprocess.check_call(["rsync", "-a", "--exclude", "target", "--exclude", ".git", "/repo/", dst + "/"])
+            # the committed state of /repo (not its working tree, which a seeded change may be applied to at this moment)
+            os.makedirs(dst, exist_ok=True)
+            subprocess.check_call("git -C /repo archive HEAD | tar -x -C %s" % dst, shell=True)
             edits = m.get("edits") or [m]
             okm = True
             for e in edits:
